@@ -836,11 +836,18 @@ class DAGRunConcurrentManager(DAGRunManagerLike):
                 logger.debug('The subgraph should be stopped. There is an error in %s', name)
 
                 if dag.is_oneof:
-                    # Inside a OneOf subgraph the failure is contained. The node gets it as its result so that its
+                    # Inside a OneOf subgraph the failure is contained. The nodes of the iteration that have not been
+                    # executed again (the node itself among them) get the failure as their result, so that their
                     # consumers and the owner of the OneOf subgraph can see that the subgraph has failed.
-                    self._node_storage.set_node_result(node_id, self.__get_subgraph_error(recurrent_subgraph))
-                    await self.__unlock_itself(node_id)
-                    await self.__unlock_descendants(node_id)
+                    error = self.__get_subgraph_error(recurrent_subgraph)
+
+                    for path_node_id in recurrent_subgraph.nodes:
+                        if not self._node_storage.exists_node_result(path_node_id):
+                            self._node_storage.set_node_result(path_node_id, error)
+
+                    for path_node_id in recurrent_subgraph.nodes:
+                        await self.__unlock_itself(path_node_id)
+                        await self.__unlock_descendants(path_node_id)
 
                 return
 
